@@ -432,7 +432,7 @@ def strat_model():
         S.units(), S.ads_T(), S.material(), st.sampled_from(["Langmuir", "Henry", "Toth", "DSLangmuir", "BET"]),
         st.floats(0.01, 100).map(lambda x: round(x, 6)), st.floats(0.1, 50).map(lambda x: round(x, 6)),
         st.sampled_from(["same_rebuild", "same_dict", "param", "param_last_digits", "param_small_magnitude", "param_in_place", "model_name", "range",
-                         "rmse", "meta", "unit", "param_int_literals", "param_int_literals", "fit_table_labels"]),
+                         "rmse", "meta", "unit", "param_int_literals", "param_int_literals", "fit_table_labels", "model_branch"]),
         st.dictionaries(st.sampled_from(["user", "k1", "comment"]), st.one_of(st.integers(0, 5), st.text("abc", max_size=3)), max_size=2))
 
 
@@ -449,10 +449,12 @@ def _model(desc, name=None, dK=0.0, prange=(0.0, 10.0), rmse=0.0, kscale=1.0, kf
     return m
 
 
-def _miso(desc, model, meta=None, units=None):
+def _miso(desc, model, meta=None, units=None, branch=None):
     kw = dict(material=K.build_material(desc["material"]), adsorbate=desc["adsorbate"], temperature=desc["T"],
               **(units or desc["units"]))
     kw.update(desc["meta"] if meta is None else meta)
+    if branch is not None:
+        kw["branch"] = branch
     return pygaps.ModelIsotherm(model=model, **kw)
 
 
@@ -512,6 +514,17 @@ def check_model(desc, ctx):
     elif f == "meta":
         b = _miso(desc, _model(desc), meta=dict(desc["meta"], user="changed-user"))
         same = desc["meta"].get("user") == "changed-user"
+    elif f == "model_branch":
+        # the branch a model isotherm describes is content: the same model on the desorption branch is another isotherm,
+        # and an explicit 'ads' is the default
+        b = _miso(desc, _model(desc), branch="des")
+        c = _miso(desc, _model(desc), branch="ads")
+        if c.iso_id != a.iso_id or not c == a:
+            raise Violation("model isotherm built with branch='ads' differs from the one built with the default branch",
+                            tag="model_same:model_branch")
+        if b.branch != "des":
+            raise Violation(f"model isotherm built with branch='des' reports branch {b.branch!r}", tag="model_branch_label")
+        same = False
     elif f == "fit_table_labels":
         # model isotherms FITTED from a table (no branch column: the branches are guessed) whose rows carry default labels
         # vs the same rows under other labels (left over from a slice, a sort, point numbers, text)
